@@ -145,7 +145,9 @@ theorem firedInv_succ (w : Array RTok) (hc : deadCert L prog W = true) (hw : PyL
       · -- leftrec
         split
         · exact firedOK_of_fired_eq rfl hs
-        · exact firedOK_of_fired_eq rfl hs
+        · split
+          · exact hs
+          · exact firedOK_of_fired_eq rfl hs
         · exact hs
         · exact ih.grow id r.body _ none _ _ hb (firedOK_of_fired_eq rfl hs)
   case grow =>
